@@ -1,0 +1,8 @@
+//go:build verif
+
+package pcache
+
+// Test-only accessor for the verification harness (build tag verif): the translator's
+// differential check calls the unexported function it translated.
+
+func VerifNeedMerge(u, m int) bool { return needMerge(u, m) }
